@@ -1,5 +1,6 @@
 import Driver.Proto
 import PtVerif.Model.Neutron
+import PtVerif.Model.NeutronD2O
 import Std.Data.HashMap
 /-! Driver sub-command `neutron`: the neutron models (C03, C04, C16, C17) at `Float`.
 
